@@ -1,5 +1,6 @@
 import HapModel.Model.Breakpoints
 import HapModel.Model.BpFile
+import HapModel.Model.PopArray
 /-!
 # C05 — Ancestry lookup returns the covering block's label; `.bp` files round-trip
 
@@ -54,5 +55,23 @@ theorem parse_render (data : List (BpFile.Name × List BpFile.Block × List BpFi
 /-- non-vacuity: block ends 100, 200, MAX — position on an end, end+1, 1, and beyond -/
 example : findBlock [100, 200, 300] 100 = some 0 ∧ findBlock [100, 200, 300] 101 = some 1 ∧
     findBlock [100, 200, 300] 1 = some 0 ∧ findBlock [100, 200, 300] 301 = none := by decide
+
+/-- **`population_array` cell by cell**: one row per requested sample in the requested order, one column per variant,
+    and each cell holds the labels the breakpoints give the two strands of *that* sample at *that* variant (the
+    covering block's label, by `find_first_ge`) -/
+theorem population_array_cells (t : Table) (vars : List (String × Nat)) (req : List String)
+    (arr : List (List (String × String))) (h : populationArray t vars (some req) = .ok arr) :
+    arr.length = req.length ∧
+    ∀ i (hi : i < req.length) (ha : i < arr.length), ∃ smp ∈ t, smp.1 = req[i] ∧
+      arr[i].length = vars.length ∧
+      ∀ j (hj : j < vars.length) (hr : j < arr[i].length),
+        labelAt smp.2.1 vars[j].1 vars[j].2 = .ok arr[i][j].1 ∧
+        labelAt smp.2.2 vars[j].1 vars[j].2 = .ok arr[i][j].2 :=
+  populationArray_cells t vars req arr h
+
+/-- a requested sample the file does not hold makes the call fail: it is never skipped or answered from another sample -/
+theorem population_array_unknown_sample (t : Table) (vars : List (String × Nat)) (req : List String) (s : String)
+    (hs : s ∈ req) (hnot : ∀ x ∈ t, x.1 ≠ s) : ∀ arr, populationArray t vars (some req) ≠ .ok arr :=
+  populationArray_unknown_sample t vars req s hs hnot
 
 end C05
